@@ -75,6 +75,7 @@ fn gens(tier: Tier) -> Vec<Gen> {
         Gen::new("id_matrix", tier.pick(1, 10, 360)),
         Gen::new("errors", tier.pick(1, 16, 480)),
         Gen::new("datagrams", tier.pick(0, 2, 40)),
+        Gen::new("unframed", tier.pick(1, 8, 240)),
     ]
 }
 
@@ -99,6 +100,9 @@ fn finish(tier: Tier, rep: &mut Report) {
             ("error_mapping_checked[stop]", 20),
             ("error_mapping_checked[timeout]", 4),
             ("datagrams_conserved[adapter->raw]", 10),
+            ("unframed_streams_conserved", 5),
+            ("error_mapping[stop->poll_send:StreamTerminated]", 10),
+            ("error_mapping[close->poll_send:Connection:ApplicationClose]", 5),
         ],
         Tier::Thorough => &[
             ("connections", 2_500),
@@ -118,6 +122,9 @@ fn finish(tier: Tier, rep: &mut Report) {
             ("error_mapping_checked[stop]", 1_000),
             ("error_mapping_checked[timeout]", 200),
             ("datagrams_conserved[adapter->raw]", 300),
+            ("unframed_streams_conserved", 200),
+            ("error_mapping[stop->poll_send:StreamTerminated]", 400),
+            ("error_mapping[close->poll_send:Connection:ApplicationClose]", 200),
         ],
     };
     for (k, floor) in floors {
@@ -2073,6 +2080,162 @@ async fn stop_scenario<B: Payload>(plan: &ErrPlan, obs: &ObsCell, stage: &Stage)
     Ok(())
 }
 
+// ---------------------------------------------------------------------------------------------
+// unframed writes (`SendStreamUnframed::poll_send`: WebTransport payloads, AsyncWrite)
+
+#[derive(Clone, Debug)]
+struct UnfPlan {
+    cfg: RigCfg,
+    total: usize,
+    max_piece: usize,
+    slow_reader: bool,
+    code: u64,
+    seed: u64,
+}
+
+fn unf_plan(index: u64, seed: u64) -> UnfPlan {
+    let mut rng = Rng::new(seed);
+    let mut cfg = RigCfg::roomy(index % 2 == 0);
+    cfg.raw.stream_rwnd = *rng.pick(&[7u64, 64, 300, 1024, 1 << 20]);
+    UnfPlan {
+        cfg,
+        total: *rng.pick(&[0usize, 1, 63, 1000, 5000, 40_000]),
+        max_piece: *rng.pick(&[1usize, 7, 100, 4096, 1 << 16]),
+        slow_reader: rng.bool(),
+        code: pick_code(&mut rng),
+        seed: rng.next(),
+    }
+}
+
+/// One unframed write of `data` piece by piece; returns the bytes the adapter reported as accepted.
+async fn unframed_write_all<B: Payload, S: quic::SendStreamUnframed<B>>(s: &mut S, data: &[u8], max_piece: usize, rng: &mut Rng, obs: &ObsCell) -> Result<usize, (usize, StreamErrorIncoming)> {
+    let mut off = 0usize;
+    while off < data.len() {
+        let k = (1 + rng.usize(max_piece)).min(data.len() - off);
+        let mut piece: &[u8] = &data[off..off + k];
+        let before = piece.len();
+        let r = std::future::poll_fn(|cx| s.poll_send(cx, &mut piece)).await;
+        match r {
+            Ok(n) => {
+                let advanced = before - piece.len();
+                let mut o = obs.borrow_mut();
+                o.evaluations += 1;
+                if n != advanced {
+                    o.violation("poll_send-count-differs-from-advance", format!("poll_send returned {} but advanced the buffer by {}", n, advanced));
+                }
+                if n == 0 {
+                    o.violation("poll_send-accepted-nothing", format!("poll_send returned Ok(0) for a {}-byte piece", before));
+                    return Ok(off);
+                }
+                if n < before {
+                    o.count("unframed_partial_writes");
+                }
+                o.count("unframed_pieces_accepted");
+                off += n;
+            }
+            Err(e) => return Err((off, e)),
+        }
+    }
+    Ok(off)
+}
+
+async fn unframed_scenario<B: Payload>(plan: &UnfPlan, obs: &ObsCell, stage: &Stage) -> Result<(), String> {
+    stage.set("connect");
+    let pair = rig::connect(&plan.cfg).await?;
+    obs.borrow_mut().count("connections");
+    let mut aconn = AConn::new(pair.adapter.clone());
+    let raw = pair.raw.clone();
+    let mut rng = Rng::new(plan.seed);
+    let mut keep = Keep::default();
+
+    // (1) conservation: everything poll_send accepted reaches the peer exactly once, in order
+    stage.set("unframed conservation");
+    let mut s = rig::open_send::<B>(&mut aconn).await.map_err(|e| format!("poll_open_send: {}", rig::stream_err_class(&e)))?;
+    let data = rng.bytes(plan.total.max(1));
+    let style = if plan.slow_reader { Reader::Slow { max: 97, pause_every: 5 } } else { Reader::Fast };
+    let reader = async {
+        let mut rr = raw.accept_uni().await.map_err(|e| format!("raw accept_uni: {}", e))?;
+        Ok::<_, String>(raw_read(&mut rr, &style).await)
+    };
+    let writer = async {
+        let mut wrng = Rng::new(plan.seed ^ 0x55);
+        let r = unframed_write_all::<B, _>(&mut s, &data, plan.max_piece, &mut wrng, obs).await;
+        let fin = std::future::poll_fn(|cx| quic::SendStream::<B>::poll_finish(&mut s, cx)).await;
+        (r, fin)
+    };
+    let ((wres, fin), rres) = tokio::join!(writer, reader);
+    let (got, end) = rres?;
+    match wres {
+        Err((_, e)) => return Err(format!("rig: unframed write failed on a healthy connection: {}", rig::stream_err_class(&e))),
+        Ok(n) => {
+            let mut o = obs.borrow_mut();
+            o.evaluations += 1;
+            if fin.is_err() {
+                o.violation("poll_finish-after-unframed-writes-failed", "poll_finish failed on a healthy stream".to_string());
+            }
+            if got != data[..n] || !matches!(end, ReadEnd::Fin) {
+                o.violation(
+                    "unframed-bytes-not-conserved",
+                    format!("poll_send accepted {} bytes, the peer read {} ({:?}); first difference at offset {}", n, got.len(), end, first_diff(&got, &data[..n])),
+                );
+            } else {
+                o.add("unframed_bytes_conserved", n as u64);
+                o.count("unframed_streams_conserved");
+            }
+        }
+    }
+    keep.hold(s);
+
+    // (2) the peer's STOP_SENDING surfaces from poll_send as StreamTerminated with the peer's code
+    let mut cs = vec![plan.code];
+    cs.push(*rng.pick(&codes()));
+    for c in cs {
+        stage.set(format!("unframed stop {:#x}", c));
+        let mut s = rig::open_send::<B>(&mut aconn).await.map_err(|e| format!("poll_open_send: {}", rig::stream_err_class(&e)))?;
+        let mut first: &[u8] = b"x";
+        std::future::poll_fn(|cx| quic::SendStreamUnframed::<B>::poll_send(&mut s, cx, &mut first)).await.map_err(|e| format!("first poll_send: {}", rig::stream_err_class(&e)))?;
+        let mut rr = raw.accept_uni().await.map_err(|e| format!("raw accept_uni: {}", e))?;
+        rr.stop(rig::vi(c)).map_err(|e| format!("raw stop: {}", e))?;
+        let mut first_err = None;
+        for i in 0..20_000u32 {
+            let chunk = rng.bytes_1upto(64);
+            let mut sl: &[u8] = &chunk;
+            match std::future::poll_fn(|cx| quic::SendStreamUnframed::<B>::poll_send(&mut s, cx, &mut sl)).await {
+                Ok(_) => {}
+                Err(e) => {
+                    first_err = Some(e);
+                    break;
+                }
+            }
+            if i % 16 == 0 {
+                tokio::time::sleep(Duration::from_millis(1)).await;
+            } else {
+                tokio::task::yield_now().await;
+            }
+        }
+        match &first_err {
+            None => obs.borrow_mut().inconclusive(format!("peer stop({:#x}) did not surface from poll_send after 20000 writes", c)),
+            Some(e) => check_stream_err(obs, "stop", "poll_send", Err(e), Want::Terminated(c)),
+        }
+        keep.hold(rr);
+        keep.hold(s);
+    }
+
+    // (3) the peer's application close surfaces from poll_send as ApplicationClose with its code
+    stage.set("unframed close");
+    let mut s = rig::open_send::<B>(&mut aconn).await.map_err(|e| format!("poll_open_send: {}", rig::stream_err_class(&e)))?;
+    let mut first: &[u8] = b"y";
+    std::future::poll_fn(|cx| quic::SendStreamUnframed::<B>::poll_send(&mut s, cx, &mut first)).await.map_err(|e| format!("first poll_send: {}", rig::stream_err_class(&e)))?;
+    raw.close(rig::vi(plan.code), b"closing");
+    pair.adapter.closed().await;
+    let mut sl: &[u8] = b"after the close";
+    let r = std::future::poll_fn(|cx| quic::SendStreamUnframed::<B>::poll_send(&mut s, cx, &mut sl)).await;
+    check_stream_err(obs, "close", "poll_send", r.as_ref().map(|n| format!("Ok({})", n)).map_err(|e| e), Want::AppClose(plan.code));
+    keep.hold(s);
+    obs.borrow_mut().note(format!("unframed: {} B in pieces of up to {} B through a {} B stream window; stop and close codes {:#x}", plan.total, plan.max_piece, plan.cfg.raw.stream_rwnd, plan.code));
+    Ok(())
+}
+
 /// object-safe view of the send side (bidi or uni)
 trait DynSend<B: Buf> {
     fn send_frame(&mut self, f: Frame<B>) -> Result<(), StreamErrorIncoming>;
@@ -2429,6 +2592,18 @@ fn run_case(gen: &str, index: u64, seed: u64, tier: Tier, rep: &mut Report) {
             };
             let case = json!({"cfg": plan.cfg.json(), "n_out": plan.n_out, "n_in": plan.n_in, "close_code": plan.code});
             apply(obs.into_inner(), out, gen, case, rep);
+        }
+        "unframed" => {
+            let plan = unf_plan(index, seed);
+            rep.sig(hash64(&("unf", format!("{:?}", plan))));
+            rep.count(&format!("adapter_role[{}]", if plan.cfg.adapter_is_client { "client" } else { "server" }));
+            let out = rig::run_scenario(&stage, unframed_scenario::<Bytes>(&plan, &obs, &stage));
+            let case = json!({"cfg": plan.cfg.json(), "total": plan.total, "max_piece": plan.max_piece, "slow_reader": plan.slow_reader, "code": plan.code});
+            let obs = obs.into_inner();
+            if index == 0 {
+                rep.sample(json!({"gen": gen, "index": index, "plan": case, "trace": obs.trace}));
+            }
+            apply(obs, out, gen, case, rep);
         }
         "regression_seeds" => {
             let out = rig::run_scenario(&stage, regression_scenario(index, &obs, &stage));
